@@ -61,6 +61,11 @@ class Run:
         # de-duplicate by key
         for g in self.findings:
             if g.key == f.key:
+                r = self.analysed['rules'].setdefault(rule, {'text': '', 'instances': 0, 'findings': 0})
+                r['instances'] += 1
+                self.obligations.append((rule, where, construct + ' :: ' + message, False, True))
+                if message != g.message and message not in g.trace:
+                    g.trace.append('also: ' + message)
                 return g
         self.findings.append(f)
         self.obligations.append((rule, where, construct + ' :: ' + message, False, True))
